@@ -359,34 +359,55 @@ func c20E2e(t *testing.T, rep *hx.Report, orc *hx.Oracle) {
 		rtt                float64
 		err                error
 		line               string
+		fail               string   // how the SYN run of this probe fails ("" = it succeeds)
+		methods            []string // TCPMethod of every run the probe started, in order
 	}
 	var cases []e2eCase
 	for _, proto := range []string{"tcp", "udp", "icmp", "TCP", ""} {
 		for _, m := range []string{"", "syn", "sack", "prefer_sack", "syn_socket", "garbage", "SACK"} {
-			c := e2eCase{proto: proto, method: m}
-			traceroute.VerifSetRunOnce(func(ctx context.Context, p traceroute.TracerouteParams, port int) (*result.TracerouteRun, error) {
-				c.gotMethod = string(p.TCPMethod)
-				c.minTTL, c.maxTTL = p.MinTTL, p.MaxTTL
-				mk := func(marker int, n *int) func() (*result.TracerouteRun, error) {
-					return func() (*result.TracerouteRun, error) {
-						*n++
-						return &result.TracerouteRun{Hops: []*result.TracerouteHop{{TTL: p.MaxTTL, RTT: float64(marker), IsDest: true}}}, nil
+			for _, fail := range []string{"", "plain", "not-supported", "deadline"} {
+				if fail != "" && proto != "tcp" {
+					continue
+				}
+				c := e2eCase{proto: proto, method: m, fail: fail}
+				traceroute.VerifSetRunOnce(func(ctx context.Context, p traceroute.TracerouteParams, port int) (*result.TracerouteRun, error) {
+					c.methods = append(c.methods, string(p.TCPMethod))
+					if len(c.methods) == 1 {
+						c.gotMethod = string(p.TCPMethod)
+						c.minTTL, c.maxTTL = p.MinTTL, p.MaxTTL
 					}
+					mk := func(marker int, n *int) func() (*result.TracerouteRun, error) {
+						return func() (*result.TracerouteRun, error) {
+							*n++
+							if marker == 7 {
+								// the SYN run of an end-to-end probe fails: the failure is the probe's outcome
+								switch fail {
+								case "plain":
+									return nil, fmt.Errorf("verif: raw socket write failed")
+								case "not-supported":
+									return nil, fmt.Errorf("verif: %w", &sack.NotSupportedError{Err: fmt.Errorf("verif")})
+								case "deadline":
+									return nil, fmt.Errorf("verif: %w", context.DeadlineExceeded)
+								}
+							}
+							return &result.TracerouteRun{Hops: []*result.TracerouteHop{{TTL: p.MaxTTL, RTT: float64(marker), IsDest: true}}}, nil
+						}
+					}
+					if p.Protocol != "tcp" {
+						return mk(5, new(int))()
+					}
+					return traceroute.VerifPerformTCPFallback(p.TCPMethod, mk(7, &c.nSyn), mk(8, &c.nSack), mk(9, &c.nSock))
+				})
+				c.rtt, c.err = traceroute.VerifE2eProbeOnce(context.Background(),
+					traceroute.TracerouteParams{Hostname: "198.51.100.9", Protocol: proto, MinTTL: 1, MaxTTL: 30, TCPMethod: traceroute.TCPMethod(m), Timeout: time.Millisecond}, 443)
+				traceroute.VerifSetRunOnce(nil)
+				isTCP := "0"
+				if proto == "tcp" {
+					isTCP = "1"
 				}
-				if p.Protocol != "tcp" {
-					return mk(5, new(int))()
-				}
-				return traceroute.VerifPerformTCPFallback(p.TCPMethod, mk(7, &c.nSyn), mk(8, &c.nSack), mk(9, &c.nSock))
-			})
-			c.rtt, c.err = traceroute.VerifE2eProbeOnce(context.Background(),
-				traceroute.TracerouteParams{Hostname: "198.51.100.9", Protocol: proto, MinTTL: 1, MaxTTL: 30, TCPMethod: traceroute.TCPMethod(m), Timeout: time.Millisecond}, 443)
-			traceroute.VerifSetRunOnce(nil)
-			isTCP := "0"
-			if proto == "tcp" {
-				isTCP = "1"
+				c.line = fmt.Sprintf("pol.e2e %s %s", isTCP, c20MethodToken(m))
+				cases = append(cases, c)
 			}
-			c.line = fmt.Sprintf("pol.e2e %s %s", isTCP, c20MethodToken(m))
-			cases = append(cases, c)
 		}
 	}
 	lines := make([]string, len(cases))
@@ -399,14 +420,18 @@ func c20E2e(t *testing.T, rep *hx.Report, orc *hx.Oracle) {
 	}
 	for i, c := range cases {
 		sample := map[string]any{"protocol": c.proto, "method": c.method, "method_passed_on": c.gotMethod, "min_ttl": c.minTTL, "max_ttl": c.maxTTL,
-			"calls_syn_sack_sock": []int{c.nSyn, c.nSack, c.nSock}, "rtt": c.rtt, "oracle_line": c.line}
+			"calls_syn_sack_sock": []int{c.nSyn, c.nSack, c.nSock}, "rtt": c.rtt, "oracle_line": c.line, "syn_run_fails": c.fail, "methods_of_the_runs_started": c.methods}
 		mt := c20MethodToken(c.method)
-		rep.Case("e2e", c.line+c.proto+c.method, c.proto == "tcp" && (mt == "sack" || mt == "prefer_sack"), sample)
+		rep.Case("e2e", c.line+c.proto+c.method+c.fail, c.proto == "tcp" && (mt == "sack" || mt == "prefer_sack"), sample)
 		rep.Hit("e2e-proto:" + c.proto)
+		rep.Hit("e2e-syn-fails:" + c.fail)
 		bad := ""
 		switch {
 		case c.proto == "tcp" && c.nSack != 0:
 			bad = "an end-to-end probe invoked the SACK implementation"
+		case c.fail != "" && (mt == "empty" || mt == "syn" || mt == "sack" || mt == "prefer_sack") && (len(c.methods) != 1 || c.nSyn != 1 || c.err == nil):
+			bad = "an end-to-end TCP probe whose SYN run failed did not end with that one run's failure"
+		case c.fail != "":
 		case c.proto == "tcp" && (mt == "empty" || mt == "syn" || mt == "sack" || mt == "prefer_sack") && (c.nSyn != 1 || c.err != nil || c.rtt != 7):
 			bad = "an end-to-end TCP probe did not use the SYN implementation exactly once"
 		case c.minTTL != c.maxTTL || c.maxTTL != 30:
